@@ -26,6 +26,7 @@ type vGate struct {
 	delayQ   time.Duration // delay applied to query operations (outage simulation)
 	sched    *vSched       // optional scheduler (C16)
 	disabled bool
+	readOnly bool // every writing statement (and commit) fails: a store that still answers reads
 }
 
 var (
@@ -46,6 +47,9 @@ func (g *vGate) pass(op string) error {
 	n := g.count
 	g.log = append(g.log, op)
 	fail := g.failAt != 0 && n == g.failAt
+	if g.readOnly && (op == "commit" || strings.HasPrefix(op, "exec:")) {
+		fail = true
+	}
 	delay := time.Duration(0)
 	if strings.HasPrefix(op, "query") {
 		delay = g.delayQ
